@@ -91,6 +91,11 @@ pub fn any() -> bool {
     untracked(|| !lock().v.is_empty())
 }
 
+/// any violation recorded so far that belongs to property `prop` (or is fatal for every property)?
+pub fn any_for(prop: &str) -> bool {
+    untracked(|| lock().v.iter().any(|v| v.clause.starts_with("M.") || v.props.iter().any(|p| *p == prop)))
+}
+
 pub fn known_hits() -> BTreeMap<String, (u64, String)> {
     untracked(|| lock().known_hits.clone())
 }
